@@ -300,6 +300,21 @@ def gen_cases(ctx, rng, add, impl_only, doc_expect):
             add('text_ptyp', 'ptyp %s %s' % (ty, U.hx(t + (term if rng.random() < 0.3 else b''))))
         if t in specials or rng.random() < 0.05:
             add('text_jtyp', 'jtyp bool ' + U.hx(t + term))
+    # ---- digit COUNT (1..25, with and without leading zeros) x every class of following character, all entry points and widths
+    #      (a fast path keyed on the number of digits must not lose the overflow test or the trailing-character test)
+    tails = [b'', b' ', b',', b']', b'}', b'\n', b'\t', b':', b'.', b'.5', b'.0', b'e', b'e5', b'e+5', b'e-5', b'E', b'E5', b'p', b'p3', b'P', b'P-3',
+             b'x', b'a', b'L', b'_', b'-', b'+', b'"', b'\0']
+    for nd in range(1, 26):
+        variants = [str(rng.randrange(10 ** (nd - 1), 10 ** nd)), '1' + '0' * (nd - 1), '9' * nd,
+                    ('%0' + str(nd) + 'd') % rng.randrange(0, min(128, 10 ** nd)), ('%0' + str(nd) + 'd') % rng.randrange(0, min(2 ** 31, 10 ** nd))]
+        if nd >= 19: variants.append(str(min(10 ** nd - 1, max(10 ** (nd - 1), 18446744073709551615 + rng.choice([-1, 0, 1]))))[:nd] if nd == 20 else str(rng.randrange(10 ** (nd - 1), 10 ** nd)))
+        for ds in dict.fromkeys(variants):
+            for sg in (b'', b'-'):
+                for tl in tails:
+                    t = sg + ds.encode() + tl
+                    add('count_x_tail', 'pint ' + U.hx(t)); add('count_x_tail', 'jint ' + U.hx(t))
+                    for ty in (types if (T or tl[:1] in (b'.', b'e', b'E', b'p', b'P') or rng.random() < 0.25) else rng.sample(types, 2)):
+                        add('count_x_tail', 'ptyp %s %s' % (ty, U.hx(t))); add('count_x_tail', 'jtyp %s %s' % (ty, U.hx(t)))
     # ---- coerce grid
     cvals = set([0, 1, 2, 2 ** 63 - 1, 2 ** 63, 2 ** 63 + 1, TWO64 - 1, TWO64 - 2])
     for lo, hi in U.TYPES.values():
@@ -324,6 +339,15 @@ def gen_cases(ctx, rng, add, impl_only, doc_expect):
             okv = (lo <= v <= hi) and rest == b'' and not (neg and lo == 0)
             doc_expect[line] = ('json', ty, {fields[ty]: v} if okv else None, abs(v), 'field %s = %s' % (ty, t.decode('latin1')))
             impl_only.append(('json_doc', line))
+    for nd in range(1, 26):
+        for ds in (str(rng.randrange(10 ** (nd - 1), 10 ** nd)), ('%0' + str(nd) + 'd') % rng.randrange(1, min(100, 10 ** nd)) if nd > 1 else '7'):
+            for tl in ('.5', '.0', 'e1', 'E1', 'e-1'):
+                for ty in (types if T else rng.sample(types, 3)):
+                    sg = '-' if (ty[0] == 'i' and rng.random() < 0.5) else ''
+                    doc = ('{"%s":%s%s%s}' % (fields[ty], sg, ds, tl)).encode()
+                    line = 'json ' + U.hx(doc)
+                    doc_expect[line] = ('json', ty, None, 0, 'field %s = %s%s%s (fraction/exponent notation)' % (ty, sg, ds, tl))
+                    impl_only.append(('json_doc_count_x_tail', line))
     for _ in range(60 if T else 15):
         n = rng.randint(1, 6)
         xs = [rng.choice([0, 1, -1, 2 ** 31 - 1, -2 ** 31, rng.randrange(-2 ** 31, 2 ** 31)]) for _ in range(n)]
@@ -386,6 +410,17 @@ def gen_cases(ctx, rng, add, impl_only, doc_expect):
             p = rng.randrange(1, nd); ds = ds[:p] + '.' + ds[p:]
         e = rng.choice([None, None, rng.randint(-30, 30), rng.randint(-340, 310), rng.randint(-320, -290), rng.randint(290, 310)])
         s = ('-' if rng.random() < 0.2 else '') + ds + ('' if e is None else rng.choice(['e', 'E']) + (rng.choice(['', '+']) if e >= 0 else '') + str(e))
+        ftexts.add(s)
+    for nd in range(1, 26):
+        for ds in (str(rng.randrange(10 ** (nd - 1), 10 ** nd)), '9' * nd, '1' + '0' * (nd - 1), ('9007199254740993' + '0' * 25)[:nd], ('18446744073709551615' + '9' * 10)[:nd]):
+            for ex in (None, 0, 1, -1, 22 - nd, 23 - nd, 22, 23, -22, -23, 308 - nd, -324):
+                ftexts.add(ds + ('' if ex is None else 'e%d' % ex))
+            if nd > 1:
+                p = rng.randrange(1, nd)
+                for ex in (None, 21, 22, 23, -5):
+                    ftexts.add(ds[:p] + '.' + ds[p:] + ('' if ex is None else 'e%d' % ex))
+    for s in ('1e22', '1e23', '9007199254740992', '9007199254740993', '9007199254740991e22', '9007199254740992e22', '9007199254740993e22', '9007199254740991e23',
+              '8.98846567431158e307', '1e-22', '1e-23', '123456789012345678e-18', '1234567890123456789e-19', '12345678901234567890e-20', '123456789012345678901e-21'):
         ftexts.add(s)
     for s in sorted(ftexts):
         term = rng.choice([b',', b'}', b']', b' ', b'\n'])
